@@ -9,6 +9,9 @@ def check(pid, text, note, technique, design_ref):
     CHECKS[pid] = dict(text=text, note=note, technique=technique, design_ref=design_ref)
 
 exec(open(os.path.join(V, "tools", "manifest_entries.py")).read())
+for _f in sorted(os.listdir(os.path.join(V, "tools", "manifest.d"))):
+    if _f.endswith(".py"):
+        exec(open(os.path.join(V, "tools", "manifest.d", _f)).read())
 
 props = [json.loads(l)["id"] for l in open(os.path.join(V, "properties.jsonl"))]
 m = {
